@@ -137,7 +137,7 @@ def h_alias(t0: int, t1: int, t2: int, t3: int, t4: int) -> bool:
 def ref_parse(defn, argv, with_options=True):
     """independent model of the documented composition rules -> {pass_name: (defines, include_paths, include_files)}"""
     eff = list(argv) + (list(defn.get("options", [])) if with_options else [])
-    defines, paths, files = [], [], []
+    defines, paths, syspaths, files = [], [], [], []
     modes = []
     rules = defn.get("parser", [])
     flagmap = {}
@@ -193,7 +193,7 @@ def ref_parse(defn, argv, with_options=True):
             i += 1
             continue
         matched = False
-        for flag, lst in (("-D", defines), ("-isystem", paths), ("-include", files), ("-I", paths)):
+        for flag, lst in (("-D", defines), ("-isystem", syspaths), ("-include", files), ("-I", paths)):
             if a == flag:
                 lst.append(eff[i + 1])
                 i += 2
@@ -206,6 +206,7 @@ def ref_parse(defn, argv, with_options=True):
                 break
         if not matched:
             i += 1
+    paths = paths + syspaths  # -isystem directories are searched after all -I directories
     # default passes of pass-selecting rules whose flag was not used
     for r in rules:
         if r["action"] in ("store_split", "extend_match") and r.get("dest") == "passes" and "default" in r:
